@@ -2737,7 +2737,7 @@ def remove_redundant_comprehension_casts(source: str) -> str:
         if func == "iter" and isinstance(comp, ast.GeneratorExp):
             yield node, comp
         if func == "iter" and isinstance(comp, ast.ListComp):
-            yield ast.GeneratorExp(comp.elt, comp.generators)
+            yield node, ast.GeneratorExp(comp.elt, comp.generators)
 
     template = ast.Call(
         func=ast.Name(id=core.Wildcard("func", ("list", "set", "iter", "dict"))),
